@@ -2,7 +2,7 @@
   Timer — small-step model of the handshake timer (ship/handshake.go setHandshakeTimer /
   stopHandshakeTimer) under arbitrary scheduling.
 
-  The model is parameterised by three design facts that the extractor reads off the source
+  The model is parameterised by four design facts that the extractor reads off the source
   (`Generated.timerCfg`): does every armed timer get its own stop channel, does stopping close that
   channel (instead of a non-blocking send), and does the timer goroutine re-check under the mutex that
   it is still the current, unstopped timer before it delivers the timeout.  Primitives taken as given
@@ -16,10 +16,11 @@ structure Cfg where
   perArmChannel : Bool
   stopCloses : Bool
   recheck : Bool
+  captureAtArm : Bool     -- the goroutine selects on the channel made when it was armed (not on whatever is stored when it starts)
   deriving DecidableEq, Repr
 
-def Cfg.fixed : Cfg := { perArmChannel := true, stopCloses := true, recheck := true }
-def Cfg.pinned : Cfg := { perArmChannel := false, stopCloses := false, recheck := false }
+def Cfg.fixed : Cfg := { perArmChannel := true, stopCloses := true, recheck := true, captureAtArm := true }
+def Cfg.pinned : Cfg := { perArmChannel := false, stopCloses := false, recheck := false, captureAtArm := true }
 
 inductive Phase | spawned | waiting | done
   deriving DecidableEq, Repr
@@ -78,7 +79,9 @@ def step (c : Cfg) (s : S) : Act → S
              gs := { id := n, chan := ch, phase := .spawned } :: s.gs }
   | .stop recv => stopStep c s recv
   | .start g => match s.gs.find? (fun x => x.id = g && x.phase = .spawned) with
-    | some _ => { s with gs := setPhase s.gs g .waiting }
+    | some _ =>
+      if c.captureAtArm then { s with gs := setPhase s.gs g .waiting }
+      else { s with gs := s.gs.map fun x => if x.id = g then { x with phase := .waiting, chan := s.cur } else x }
     | none => s
   | .wake g => match s.gs.find? (fun x => x.id = g && x.phase ≠ .done && s.closed.contains x.chan) with
     | some _ => { s with gs := setPhase s.gs g .done }
